@@ -27,6 +27,7 @@ import (
 type sigv struct {
 	pub string  // public key bytes
 	msg []value // signed message (bytes or blob)
+	id  int     // identity token of this Sign call (see the []byte -> string conversion)
 }
 
 func sigOf(s []value) *sigv {
@@ -262,7 +263,8 @@ func init() {
 			fr.i.x.stub("ed25519 Sign/Verify (functional signature model, unforgeability assumed)")
 			priv := arrayBytes(args[0])
 			msg, _ := args[1].([]value)
-			return tuple{[]value{&sigv{pub: string(priv[32:]), msg: msg}}, iface{}}
+			fr.i.x.uniq++
+			return tuple{[]value{&sigv{pub: string(priv[32:]), msg: msg, id: fr.i.x.uniq}}, iface{}}
 		},
 		ed + ".GenPrivKeyFromSecret": func(fr *frame, args []value) value {
 			seed := sha256.Sum256(concreteBytes(args[0].([]value), "key secret"))
